@@ -123,10 +123,37 @@ def _res_flav(fa, fb, op):
     return 'dec'
 
 
-def _flav_hint(res, fa, fb, osym):
+def _repr_fork(res, fa, fb):
+    """Option `repr_fork` (selected jobs): the kind of a result that involves a decimalfp.Decimal operand follows the
+    dependency: Decimal when the exact value is a finite decimal, Fraction otherwise -- decided per distinct term by a
+    path split (representable: no constraint, an over-approximation; not representable: not a decimal with up to 9
+    fractional digits, plus a hint for a factor 3 in the denominator).  Fraction with Fraction stays a Fraction."""
+    if not isinstance(res, (SymDec, SymFrac)):
+        return res
+    if fa == 'frac' and fb == 'frac':
+        return res if isinstance(res, SymFrac) else SymFrac(res.z)
+    memo = E.__dict__.setdefault('_repr_memo', {})
+    key = z3.simplify(res.z).sexpr()
+    dec = memo.get(key)
+    if dec is None:
+        E.stub('representation of a mixed Decimal / Fraction result')
+        dec = bool(E.branch(E.fresh_bool('decimal_repr')))
+        memo[key] = dec
+        if not dec:
+            E._add(z3.Not(z3.IsInt(res.z * (10 ** 9))))
+            if len([1 for v in memo.values() if not v]) <= 2:
+                E.hint(z3.And(z3.IsInt(res.z * 3000), z3.Not(z3.IsInt(res.z * 1000))))
+    return SymDec(res.z) if dec else SymFrac(res.z)
+
+
+def _flav_hint(res, fa, fb, osym, op='mul'):
     """A decimal-flavoured symbolic value times / over a concrete Fraction is modelled as a Fraction; in reality it is one
     only when the value is no finite decimal.  Leave a hint for the choice of counterexample models (first occurrence on
     a path): a value with a factor 3 in its denominator."""
+    if E.opts.get('repr_fork'):
+        if fa == 'dec' and fb == 'dec' and op != 'div':
+            return res
+        return _repr_fork(res, fa, fb)
     if isinstance(res, SymFrac) and not osym and 'dec' in (fa, fb) and not getattr(E, '_flav_hinted', False):
         E._flav_hinted = True
         E.hint(z3.And(z3.IsInt(res.z * 3000), z3.Not(z3.IsInt(res.z * 1000))))
@@ -163,19 +190,21 @@ class SymRat:
                 return E.concretise_float(zz)
             fa, fb = ('dec', self.flav) if swap else (self.flav, 'dec')
         if op == 'add':
-            return _mk(a + b, _res_flav(fa, fb, op))
+            r = _mk(a + b, _res_flav(fa, fb, op))
+            return _repr_fork(r, fa, fb) if E.opts.get('repr_fork') and 'frac' in (fa, fb) else r
         if op == 'sub':
-            return _mk(a - b, _res_flav(fa, fb, op))
+            r = _mk(a - b, _res_flav(fa, fb, op))
+            return _repr_fork(r, fa, fb) if E.opts.get('repr_fork') and 'frac' in (fa, fb) else r
         if op == 'mul':
             if osym:
                 a, b = E.linearise(a, b)
-            return _flav_hint(_mk(a * b, _res_flav(fa, fb, op)), fa, fb, osym)
+            return _flav_hint(_mk(a * b, _res_flav(fa, fb, op)), fa, fb, osym, op)
         if op == 'div':
             if E.branch(b == 0):
                 raise ZeroDivisionError("division by zero (symbolic)")
             if not (z3.is_rational_value(z3.simplify(b))):
                 a, b = E.linearise(a, b)
-            return _flav_hint(_mk(a / b, _res_flav(fa, fb, op)), fa, fb, osym)
+            return _flav_hint(_mk(a / b, _res_flav(fa, fb, op)), fa, fb, osym, op)
         raise HarnessError(op)
 
     def __add__(self, o): return self._bin(o, 'add')
